@@ -138,19 +138,11 @@ def walk_with_lambdas(fn):
         stack.extend(reversed(list(ast.iter_child_nodes(cur))))
 
 
-def run(ctx):
-    prog = ctx.prog
-    cg = callgraph.build(prog)
-    reach = cg.reachable(callgraph.ENTRY_POINTS, callgraph.versionA_exclude)
-    labels = Labels(prog)
-    ctx.note('label_components', {k: [sorted(c) if c else None for c, _n, _m in v]
-                                  for k, v in labels.defs.items()})
-    if not labels.defs.get('residue_label') or not labels.defs.get('label:protein'):
-        raise AnalysisError('C06: label format definitions not found')
-
-    # ------------------------------------------------------------------ R1
+def identity_decisions(cg, reach, labels):
+    """(fid, fn, mod, node, components, via_label) for every residue-identity
+    decision in reachable code: comparisons, membership tests and dictionary
+    keys built from residue number / chain / insertion code / labels."""
     seen = set()
-    n_dec = 0
     for fid in sorted(reach):
         fn = cg.funcs[fid]
         mod = cg.mod_of[fid]
@@ -196,6 +188,22 @@ def run(ctx):
             if all(isinstance(p, ast.Compare) and any(isinstance(x, ast.Constant)
                    for x in [p.left] + p.comparators) for p in parts):
                 continue
+            yield fid, fn, mod, node, comps, via_label
+
+
+def run(ctx):
+    prog = ctx.prog
+    cg = callgraph.build(prog)
+    reach = cg.reachable(callgraph.ENTRY_POINTS, callgraph.versionA_exclude)
+    labels = Labels(prog)
+    ctx.note('label_components', {k: [sorted(c) if c else None for c, _n, _m in v]
+                                  for k, v in labels.defs.items()})
+    if not labels.defs.get('residue_label') or not labels.defs.get('label:protein'):
+        raise AnalysisError('C06: label format definitions not found')
+
+    # ------------------------------------------------------------------ R1
+    n_dec = 0
+    for fid, fn, mod, node, comps, via_label in identity_decisions(cg, reach, labels):
             n_dec += 1
             missing = RESIDUE_KEY - comps
             key = 'decision:%s.%s:%s' % (fid[0], fid[1], canon(fn).key(node)[:140])
@@ -357,6 +365,23 @@ def run(ctx):
            set(arith) <= {('conformation_container', 'ConformationContainer.sort_atoms_key')},
            'residue numbers and chain codes enter arithmetic only in the atom sort key (%s)'
            % sorted(set(arith)), cc, cc.func('ConformationContainer.sort_atoms_key'))
+    ordered = []
+    for fid in sorted(reach):
+        fn = cg.funcs[fid]
+        for node in walk_with_lambdas(fn):
+            if isinstance(node, ast.Compare) and any(
+                    isinstance(op, (ast.Lt, ast.LtE, ast.Gt, ast.GtE)) for op in node.ops) and any(
+                    isinstance(x, ast.Attribute) and x.attr in ('res_num', 'chain_id', 'icode', 'numb',
+                                                                 'label', 'residue_label')
+                    for x in ast.walk(node)):
+                ordered.append((fid, node))
+    ctx.ob('C06.R3', 'numbering:never-ordered-outside-sort-key',
+           {f for f, _n in ordered} <= {('conformation_container', 'ConformationContainer.sort_atoms_key')},
+           'residue numbers, chain codes and labels are never compared with < or > in the '
+           'calculation (such a comparison makes the order of a pair, and with it an '
+           'order-sensitive interaction, depend on the numbering): %s'
+           % sorted({'%s.%s' % f for f, _n in ordered}), cg.mod_of[ordered[0][0]] if ordered else cc,
+           ordered[0][1] if ordered else cc.tree)
     sa = cc.func('ConformationContainer.sort_atoms')
     renum = [n for n in walk_no_nested(sa) if isinstance(n, ast.Assign)
              and isinstance(n.targets[0], ast.Attribute) and n.targets[0].attr == 'numb']
